@@ -26,6 +26,11 @@ Sub-oracles (trace)
   end-margin      min/maxPossibleTemperature[0] = table end +- 2 dT, flags consistent with the table
   first-step      phaseTracerFirstStep documented "in units of dT": a ValueError from scipy because the
                   value is used as an absolute step is recorded (then the case is re-traced without it)
+  trace-assert    'Temperature range negative' is an outcome only if the phase offers < 8 dT inside the request
+  fresh-object    a never-traced FreeEnergy has the documented initial state [0, False], [inf, False]
+  object-isolation  (multi cases: several FreeEnergy objects traced one after the other in one process - independent
+                  benchmark points, or the pair built by WallGo.Thermodynamics) tracing a later object does not
+                  change range / flags / table of an earlier one; every object is judged by the single-object oracles
 Sub-oracles (tc)
   tc-value        |Tc - Tc_exact| <= K*(xtol + rTol*Tc) + spline error of Delta V / |d Delta V/dT|
   tc-order        low-T phase has the lower free energy just below the returned Tc
@@ -46,7 +51,8 @@ RULE = (
     "Generated: family (Cubic1, Z2x2) and couplings, phase, units in {1e-2,1,1e2}, start temperature "
     "anywhere in the closed-form existence interval, requested range (free / crossing the lower, the "
     "upper or both ends of the phase / start within a step of a requested end), dT in 10^[-3,-1] T, "
-    "rTol in {1e-4,1e-6,1e-8}, paranoid, first step None or fraction; plus critical-temperature cases. "
+    "rTol in {1e-4,1e-6,1e-8}, paranoid, first step None or fraction; multi-object histories (2-3 independent "
+    "benchmark points, or the Thermodynamics pair with different ranges, in one process); critical-temperature cases. "
     "Non-trivial = requested range crosses at least one TRUE end of the phase, or dT/rTol at an "
     "extreme of its range (dT_rel <= 2e-3 or >= 5e-2, rTol in {1e-4,1e-8}); tc cases: Tc returned. "
     "Distinct by canonical JSON of the case."
@@ -59,6 +65,7 @@ EPS = 2.0 ** -52
 K_TOL = 10.0
 COND_CAP = 0.03
 FLOOR_C = 4.0
+TRACE_TIME_LIMIT_S = 30.0
 INSIDE_MARGIN = 0.01
 TOLERANCES = {
     "K": K_TOL,
@@ -220,8 +227,36 @@ def st_tc_case(draw):
     }
 
 
+@st.composite
+def st_multi_case(draw):
+    """Several FreeEnergy objects created and traced one after the other in ONE process, the way a user does:
+    'points' = independent benchmark points (own potential, units, ranges); 'pair' = the two objects that
+    WallGo.Thermodynamics builds, traced with different ranges (order high->low as the manager, or low->high)."""
+    if draw(st.booleans()):
+        n = draw(st.sampled_from([2, 2, 3]))
+        return {"kind": "multi", "layout": "points", "items": [draw(st_trace_case()) for _ in range(n)]}
+    spec = draw(st_spec())
+    cf0 = zp.closed(dict(spec, units=1.0))
+    Tn = cf0.Tc * (1.0 - spec["delta"])
+    items = []
+    for which in ("high", "low"):
+        dT_rel = draw(st_dtrel(-3.0, -1.3))
+        dn = 10.0 ** draw(st.floats(-2.0, -0.5))
+        up = 10.0 ** draw(st.floats(-2.0, -0.5))
+        TMin, TMax = Tn * (1.0 - dn), Tn * (1.0 + up)
+        dT_rel = max(dT_rel, (TMax - TMin) / Tn / 250.0)
+        dT_rel = min(dT_rel, (TMax - TMin) / Tn / 8.0)
+        items.append({"kind": "trace", "spec": spec, "which": which, "mode": "pair", "Ts": _r(Tn, 12),
+                      "TMin": _r(TMin, 12), "TMax": _r(TMax, 12), "dT": _r(dT_rel * Tn, 6),
+                      "rTol": draw(st.sampled_from(RTOLS)), "paranoid": draw(st.booleans()), "first": None})
+    if draw(st.booleans()):
+        items.reverse()
+    return {"kind": "multi", "layout": "pair", "items": items}
+
+
 def strategy(tier):
-    return st.one_of(st_trace_case(), st_trace_case(), st_trace_case(), st_trace_case(), st_tc_case())
+    return st.one_of(st_trace_case(), st_trace_case(), st_trace_case(), st_multi_case(), st_multi_case(),
+                     st_tc_case())
 
 
 # ---------------------------------------------------------------------------
@@ -449,21 +484,81 @@ def scan_nodes(v, V, cf, spec, which, ex, Tk, vals, rTol, paranoid, Tstart, flag
 # ---------------------------------------------------------------------------
 # trace cases
 # ---------------------------------------------------------------------------
-def _do_trace(V, cf, case, s, first):
-    fe = zp.make_free_energy(V, cf, case["which"], case["Ts"] * s)
-    fe.tracePhase(case["TMin"] * s, case["TMax"] * s, case["dT"] * s, rTol=case["rTol"],
-                  spinodal=True, paranoid=case["paranoid"], phaseTracerFirstStep=first)
+class TraceTimeout(Exception):
+    pass
+
+
+class time_limit:
+    """Wall-clock guard around one tracePhase call (SIGALRM, main thread only).  A trace of the generated
+    size takes < 3 s; TRACE_TIME_LIMIT_S is only ever reached when the code under test misbehaves grossly,
+    and then yields the label outcome:timeout (inconclusive for that case), never a violation."""
+
+    def __init__(self, seconds):
+        self.seconds = seconds
+        self.armed = False
+
+    def _raise(self, signum, frame):
+        raise TraceTimeout()
+
+    def __enter__(self):
+        import signal
+        import threading
+
+        if threading.current_thread() is threading.main_thread() and hasattr(signal, "setitimer"):
+            self.old = signal.signal(signal.SIGALRM, self._raise)
+            signal.setitimer(signal.ITIMER_REAL, self.seconds)
+            self.armed = True
+        return self
+
+    def __exit__(self, *exc):
+        import signal
+
+        if self.armed:
+            signal.setitimer(signal.ITIMER_REAL, 0)
+            signal.signal(signal.SIGALRM, self.old)
+        return False
+
+
+def _do_trace(V, cf, case, s, first, fe=None):
+    if fe is None:
+        fe = zp.make_free_energy(V, cf, case["which"], case["Ts"] * s)
+    with time_limit(TRACE_TIME_LIMIT_S):
+        fe.tracePhase(case["TMin"] * s, case["TMax"] * s, case["dT"] * s, rTol=case["rTol"],
+                      spinodal=True, paranoid=case["paranoid"], phaseTracerFirstStep=first)
     return fe
 
 
-def check_trace(case, v: Verdict):
+def _object_state(fe):
+    return (float(fe.minPossibleTemperature[0]), bool(fe.minPossibleTemperature[1]),
+            float(fe.maxPossibleTemperature[0]), bool(fe.maxPossibleTemperature[1]),
+            float(fe.interpolationRangeMin()), float(fe.interpolationRangeMax()))
+
+
+def check_fresh(fe, v, cls):
+    """A FreeEnergy object that was never traced has the documented initial range [0, inf], not flagged."""
+    v.checked("fresh-object")
+    mn, mx = list(fe.minPossibleTemperature), list(fe.maxPossibleTemperature)
+    if not (mn[0] == 0.0 and mn[1] is False and mx[0] == np.inf and mx[1] is False) or fe.hasInterpolation():
+        v.fail("fresh-object", cls,
+               f"a newly created FreeEnergy object starts with minPossibleTemperature={mn}, maxPossibleTemperature={mx}, "
+               f"hasInterpolation={fe.hasInterpolation()} instead of [0.0, False], [inf, False], no table")
+
+
+def check_trace(case, v: Verdict, prebuilt=None):
+    """All oracles on one traced FreeEnergy.  prebuilt = (V, cf, fe): use this (untraced) object instead of
+    creating one.  Returns the traced object (or None)."""
     spec = case["spec"]
     s = float(spec.get("units", 1.0))
     which, rTol, paranoid = case["which"], case["rTol"], case["paranoid"]
-    V, model, cf = zp.configured_potential(spec)
+    if prebuilt is None:
+        V, model, cf = zp.configured_potential(spec)
+        fe0 = zp.make_free_energy(V, cf, which, case["Ts"] * s)
+    else:
+        V, cf, fe0 = prebuilt
     ex = existence(cf, which)
     Ts, TMin, TMax, dT = case["Ts"] * s, case["TMin"] * s, case["TMax"] * s, case["dT"] * s
     dT_rel = case["dT"] / case["Ts"]
+    check_fresh(fe0, v, f"{spec['family']}/{which}")
     back = K_TOL * rTol
     v.label(f"family:{spec['family']}", f"phase:{which}", f"units:{s:g}", f"rTol:{rTol:g}",
             f"paranoid:{paranoid}", f"first:{'none' if case['first'] is None else 'fraction'}",
@@ -479,14 +574,29 @@ def check_trace(case, v: Verdict):
     fe = None
     for attempt in (0, 1):
         try:
-            fe = _do_trace(V, cf, case, s, first)
+            fe = _do_trace(V, cf, case, s, first, fe=fe0 if attempt == 0 else None)
             break
+        except TraceTimeout:
+            v.label("outcome:timeout")
+            return None
         except AssertionError as exc:
-            v.label("outcome:assert:" + str(exc)[:28].replace(" ", "_"))
-            return
+            msg = str(exc)
+            v.label("outcome:assert:" + msg[:28].replace(" ", "_"))
+            # "Temperature range negative" is an outcome only if the phase really offers less than ~4 dT of
+            # table inside the request; otherwise the table had to cover the requested range
+            lo_eff = max(TMin, ex["lo"]) if ex["lo"] > 0 else TMin
+            hi_eff = min(TMax, ex["hi"]) if math.isfinite(ex["hi"]) else TMax
+            v.checked("trace-assert")
+            if msg.startswith("Temperature range negative") and hi_eff - lo_eff >= 8 * dT \
+                    and lo_eff + dT <= Ts <= hi_eff - dT:
+                v.fail("trace-assert", _cls(spec, which, paranoid, f"rTol={rTol:g}"),
+                       f"tracePhase raised '{msg[:60]}' although the phase exists on [{lo_eff / s:.8g},{hi_eff / s:.8g}] "
+                       f"inside the request [{TMin / s:.8g},{TMax / s:.8g}] = {(hi_eff - lo_eff) / dT:.3g} dT; object reports "
+                       f"min/max possible {fe0.minPossibleTemperature}, {fe0.maxPossibleTemperature}")
+            return None
         except RuntimeError as exc:
             v.label("outcome:RuntimeError:" + str(exc)[:24].replace(" ", "_"))
-            return
+            return None
         except ValueError as exc:
             if first is not None and "first_step" in str(exc) and attempt == 0:
                 v.checked("first-step")
@@ -495,7 +605,6 @@ def check_trace(case, v: Verdict):
                        f"as an absolute step and rejected: {exc}; range below/above start "
                        f"{Ts - TMin:.4g}/{TMax - Ts:.4g}")
                 first = None
-                V, model, cf = zp.configured_potential(spec)
                 continue
             raise
     if first is not None:
@@ -503,7 +612,7 @@ def check_trace(case, v: Verdict):
     tab = zp.table_of(fe)
     if tab is None:
         v.label("table:unobservable")
-        return
+        return fe
     Tk, vals = tab
     nf = cf.nf
     n = Tk.size
@@ -515,7 +624,7 @@ def check_trace(case, v: Verdict):
     v.checked("node-order")
     if np.any(np.diff(Tk) <= 0):
         v.fail("node-order", _cls(spec, which, paranoid), "tabulated temperatures are not strictly increasing")
-        return
+        return fe
 
     sc = scan_nodes(v, V, cf, spec, which, ex, Tk, vals, rTol, paranoid, Ts, flags_txt=f"flags {fmin},{fmax}")
     v.info["worst_pos_over_tol"] = sc.worst_pos
@@ -575,15 +684,15 @@ def check_trace(case, v: Verdict):
         elif cl == "cross" and kind == "merge":
             v.label(f"merge-end:{'stopped' if flag else 'continued'}:units={s:g}")
     if hopped:
-        return
+        return fe
 
     # ---- interpolated values ------------------------------------------------
     lo_i, hi_i = tmin_tab + 5 * dT, tmax_tab - 5 * dT
     if not (hi_i > lo_i and n >= 8):
-        return
+        return fe
     if any(st_ is None for st_ in sc.status):
         v.label("interp:skipped-no-closed-form")
-        return
+        return fe
     from scipy.interpolate import CubicSpline
 
     Vex = np.array([float(cf.V(sc.refs[k], Tk[k])) for k in range(n)])
@@ -644,6 +753,7 @@ def check_trace(case, v: Verdict):
                f"interpolated V at T={bad_v[0] / s:.9g} is {bad_v[1] / s ** 4:.3g} from V at the exact minimum "
                f"(tolerance {bad_v[2] / s ** 4:.3g})")
 
+    return fe
 
 # ---------------------------------------------------------------------------
 # critical temperature
@@ -662,9 +772,15 @@ def check_tc(case, v: Verdict):
     th = WallGo.Thermodynamics(V, float(Tn), WallGo.Fields(cf.phase("low", Tn)), WallGo.Fields(cf.phase("high", Tn)))
     th.freeEnergyHigh.disableAdaptiveInterpolation()
     th.freeEnergyLow.disableAdaptiveInterpolation()
+    check_fresh(th.freeEnergyHigh, v, f"{spec['family']}/high")
+    check_fresh(th.freeEnergyLow, v, f"{spec['family']}/low")
     try:
-        th.freeEnergyHigh.tracePhase(TMin, TMax, dT, rTol=rTol, paranoid=paranoid)
-        th.freeEnergyLow.tracePhase(TMin, TMax, dT, rTol=rTol, paranoid=paranoid)
+        with time_limit(2 * TRACE_TIME_LIMIT_S):
+            th.freeEnergyHigh.tracePhase(TMin, TMax, dT, rTol=rTol, paranoid=paranoid)
+            th.freeEnergyLow.tracePhase(TMin, TMax, dT, rTol=rTol, paranoid=paranoid)
+    except TraceTimeout:
+        v.label("outcome:timeout")
+        return
     except (AssertionError, RuntimeError) as exc:
         v.label("outcome:trace:" + type(exc).__name__)
         return
@@ -737,10 +853,49 @@ def check_tc(case, v: Verdict):
                                     f"V_low - V_high = {(fl - fh) / s ** 4:.3g}")
 
 
+def check_multi(case, v: Verdict):
+    """Several FreeEnergy objects in one process.  Every object must behave as it would alone in a fresh
+    process: the single-object oracles are applied to each, a new object starts in the documented initial
+    state, and tracing a later object must not change what an earlier one reports."""
+    import WallGo
+
+    items = case["items"]
+    v.label(f"multi:{case['layout']}:{len(items)}")
+    traced = []
+    nontrivial = False
+    if case["layout"] == "pair":
+        spec = items[0]["spec"]
+        s = float(spec.get("units", 1.0))
+        V, model, cf = zp.configured_potential(spec)
+        Tn = items[0]["Ts"] * s
+        th = WallGo.Thermodynamics(V, float(Tn), WallGo.Fields(cf.phase("low", Tn)), WallGo.Fields(cf.phase("high", Tn)))
+        th.freeEnergyHigh.disableAdaptiveInterpolation()
+        th.freeEnergyLow.disableAdaptiveInterpolation()
+        objs = {"high": th.freeEnergyHigh, "low": th.freeEnergyLow}
+    for k, item in enumerate(items):
+        pre = (V, cf, objs[item["which"]]) if case["layout"] == "pair" else None
+        fe = check_trace(item, v, prebuilt=pre)
+        nontrivial = nontrivial or v.nontrivial
+        if fe is not None and fe.hasInterpolation():
+            traced.append((k, item, fe, _object_state(fe)))
+        # ---- earlier objects must still report what they reported right after their own trace --------
+        v.checked("object-isolation")
+        for (j, it, fj, st0) in traced[:-1] if (fe is not None and fe.hasInterpolation()) else traced:
+            st1 = _object_state(fj)
+            if st1 != st0:
+                v.fail("object-isolation", f"{it['spec']['family']}/{it['which']} layout={case['layout']}",
+                       f"object {j} ({it['which']}-T phase) reported (minPossible, flag, maxPossible, flag, table min, max) = "
+                       f"{st0} after its own trace and {st1} after object {k} ({item['which']}-T phase) was traced")
+                break
+    v.nontrivial = bool(nontrivial or len(traced) >= 2)
+
+
 def check_case(case) -> Verdict:
     v = Verdict()
     if case["kind"] == "trace":
         check_trace(case, v)
+    elif case["kind"] == "multi":
+        check_multi(case, v)
     elif case["kind"] == "tc":
         check_tc(case, v)
     else:
